@@ -34,6 +34,7 @@ CONSTANTS NW,          \* threads_max
           MemT,        \* memlimit_threading (abstract units)
           Gives,       \* set of input amounts the application may add per call (model checking)
           Spaces,      \* set of output space grants per call
+          MaxReinit,   \* how often the application may re-initialise the handle without lzma_end()
           CountCalls   \* BOOLEAN: count lzma_code calls (history variable for bounding; FALSE for liveness checking)
 
 W == 1..NW
@@ -87,7 +88,7 @@ MInit == [pc |-> "out", act |-> "RUN", inAvail |-> 0, given |-> 0, outSpace |-> 
           seq |-> "HDR", blk |-> 1, pos |-> 0, thr |-> 0, pendingErr |-> "OK", outWasFilled |-> FALSE,
           waitingAllowed |-> FALSE, rwFrom |-> "none", rwInput |-> FALSE, rwWait |-> FALSE, rwRet |-> "OK",
           canStart |-> FALSE, hasBlocked |-> FALSE, loopI |-> 0, nInit |-> 0, dIn |-> 0, dOut |-> 0,
-          orderOk |-> TRUE, copyBad |-> FALSE, space0 |-> 0]
+          orderOk |-> TRUE, copyBad |-> FALSE, space0 |-> 0, reinits |-> 0]
 CInit == [free |-> <<>>, threadErr |-> "OK", outq |-> <<>>, readPos |-> 0, memInUse |-> 0, sigM |-> FALSE]
 TInit == [state |-> "IDLE", inFilled |-> 0, partial |-> "DIS", sig |-> FALSE, pc |-> "none", blk |-> 0,
           inPos |-> 0, outPos |-> 0, snapIn |-> 0, snapPartial |-> "DIS", ret |-> "OK", inBuf |-> "none"]
@@ -364,29 +365,43 @@ Publish ==
 (* threads_end(): used by SEQ_BLOCK_DIRECT_INIT and by lzma_end()             *)
 
 EndSignal ==
-    /\ m.pc \in {"endsig", "xendsig"}
+    /\ m.pc \in {"endsig", "xendsig", "rendsig"}
     /\ IF m.loopI < m.nInit
        THEN /\ t' = SigW([t EXCEPT ![m.loopI + 1].state = "EXIT"], m.loopI + 1)
             /\ m' = [m EXCEPT !.loopI = m.loopI + 1]
-       ELSE /\ m' = [m EXCEPT !.pc = IF m.pc = "endsig" THEN "endjoin" ELSE "xendjoin", !.loopI = 0]
+       ELSE /\ m' = [m EXCEPT !.pc = CASE m.pc = "endsig" -> "endjoin" [] m.pc = "xendsig" -> "xendjoin" [] OTHER -> "rendjoin",
+                            !.loopI = 0]
             /\ UNCHANGED t
     /\ UNCHANGED c
 
 EndJoin ==
-    /\ m.pc \in {"endjoin", "xendjoin"}
+    /\ m.pc \in {"endjoin", "xendjoin", "rendjoin"}
     /\ IF m.loopI < m.nInit
        THEN /\ t[m.loopI + 1].pc = "exited"          \* mythread_join blocks until the worker has returned
             /\ m' = [m EXCEPT !.loopI = m.loopI + 1] /\ UNCHANGED <<c, t>>
-       ELSE /\ c' = [c EXCEPT !.free = <<>>, !.memInUse = 0]
-            /\ t' = [w \in W |-> TInit]
-            /\ m' = IF m.pc = "endjoin"
-                    THEN [m EXCEPT !.nInit = 0, !.loopI = 0, !.seq = "DIRECTRUN", !.pc = "run", !.dIn = 0, !.dOut = 0]
-                    ELSE [m EXCEPT !.nInit = 0, !.loopI = 0, !.pc = "freed"]
+       ELSE /\ t' = [w \in W |-> TInit]
+            /\ IF m.pc = "rendjoin"
+               THEN \* stream_decoder_mt_init() on an existing coder: threads ended, counters, queue (lzma_outq_init:
+                    \* heads moved to the cache, read_pos := 0), thread_error, sequence ... start from scratch
+                    /\ c' = CInit
+                    /\ m' = [MInit EXCEPT !.calls = m.calls, !.reinits = m.reinits, !.orderOk = m.orderOk, !.copyBad = m.copyBad]
+               ELSE /\ c' = [c EXCEPT !.free = <<>>, !.memInUse = 0]
+                    /\ m' = IF m.pc = "endjoin"
+                            THEN [m EXCEPT !.nInit = 0, !.loopI = 0, !.seq = "DIRECTRUN", !.pc = "run", !.dIn = 0, !.dOut = 0]
+                            ELSE [m EXCEPT !.nInit = 0, !.loopI = 0, !.pc = "freed"]
 
 \* The application calls lzma_end() between two lzma_code() calls (any time).
 AppEnd ==
     /\ m.pc = "out"
     /\ m' = [m EXCEPT !.pc = "xendsig", !.loopI = 0]
+    /\ UNCHANGED <<c, t>>
+
+\* The application gives the same lzma_stream to lzma_stream_decoder_mt() again without lzma_end()
+\* (what xz does for the next file): the old threads are ended, everything else is reset, and the file is
+\* decoded from its beginning.
+AppReinit ==
+    /\ m.pc = "out" /\ m.reinits < MaxReinit
+    /\ m' = [m EXCEPT !.pc = "rendsig", !.loopI = 0, !.reinits = @ + 1]
     /\ UNCHANGED <<c, t>>
 
 -----------------------------------------------------------------------------
@@ -462,7 +477,7 @@ Main == RWBody \/ RWWake \/ RWTimeout \/ StopStep \/ AfterRW \/ Run \/ TiGet \/ 
         \/ EndSignal \/ EndJoin
 
 App == \/ \E a \in {"RUN", "FINISH"}, g \in Gives, s \in Spaces : Call(a, Min(g, FileLen - m.given), s)
-       \/ AppEnd
+       \/ AppEnd \/ AppReinit
 
 Terminated == m.pc = "freed"
 Next == Main \/ (\E w \in W : Worker(w)) \/ App \/ (Terminated /\ UNCHANGED vars)
